@@ -1133,6 +1133,11 @@ def c11(chk):
         spec_stage(chk, "stream_verdict_%d" % rep, "Upload.tla",
                    dict(Lens={0, 1, 2, 3, 5, 33} if quick else {0, 1, 2, 3, 4, 5, 6, 33, 40, 67}, Kinds={"reject_emptykey", "reject_nospace"}, Variant=up_var, SendVariant=send_var),
                    view=None, emit="Emit", invariants=("XVerdictPreserved", "XNoTrace"), properties=(), exe="faults", fs=False, chunk=12)
+        # reads while the connection is cut or the caller's context is cancelled: no error means the whole content
+        for unit in (1, 64):
+            spec_stage(chk, "download_%d_u%d" % (rep, unit), "Download.tla",
+                       dict(Lens={0, 1, 2, 3, 4} if quick else {0, 1, 2, 3, 4, 5, 6, 9}, Kinds={"none", "cut", "cancel"}, Apis={"get", "reader"}, Variant=up_var, Unit=unit),
+                       view=None, emit="Emit", invariants=("XReadIsExact", "Prefix"), properties=(), exe="faults", fs=False, chunk=12)
     os.environ.pop("VERIF_SEED_SHIFT", None)
     l0_traces(chk, "ext_traces", 12 if quick else 120, 300, 6, 4, "set,del,begin,commit,rollback,gc,emptyset,late,reopen", mode="external", big=True)
     l1_stage(chk, "ext_sim", dict(Keys=K3, MaxTx=3, MaxSteps=30, Levels={"RU", "RC", "RR", "SER"}, Ops=TXOPS | {"emptyset", "gc"}),
